@@ -193,6 +193,11 @@ RATIONALE = [
     ("whitespace_calls_skipping_rule", "Zz3 = 'x';\n@no_skip_ws\nWhitespace = {Zz1};\nZz1 = ' ' | '#' Zz2;\nZz2 = 'c';\n", {}),
     ("char_rule_refers_to_missing_rule", "@char\nZz1 = ZzNope | 'a';\n", {}),
     ("char_rule_refers_to_normal_rule", "@char\nZz1 = Zz2 | 'a';\nZz2 = 'b';\n", {}),
+    ("override_type_starts_with_digit", "Zz1 = @:2;\n2 = 'b';\n", {}),
+    ("override_type_starts_with_digit_missing_rule", "Zz1 = 'x' @:9x;\n", {}),
+    ("override_type_self", "Zz1 = @:self;\n", {}),
+    ("override_type_underscore", "Zz1 = @:_ | @:Zz2;\nZz2 = 'b';\n", {}),
+    ("boxed_override_type_starts_with_digit", "Zz1 = @:*7a;\n", {}),
     ("derive_is_a_path", "Zz1 = 'a';\n", {"derives": ["Debug", "Clone", "serde::Serialize"]}),
     ("derive_with_generics", "Zz1 = 'a';\n", {"derives": ["Debug", "PartialEq<u8>"]}),
     ("derive_starts_with_digit", "Zz1 = 'a';\n", {"derives": ["Debug", "1"]}),
@@ -291,7 +296,7 @@ def execute(cell, d, env, entropy):
         with open(gpath, "wb") as f:
             f.write(cell.grammar)
     after_success = cell.dest_setup == "after_success"
-    ds = None if after_success else cell.dest_setup
+    ds = None if (after_success or cell.dest_setup == "dir_is_grammar_file") else cell.dest_setup
     if ds == "dest_is_dir":
         os.makedirs(dest)
     elif ds == "dest_parent_missing":
@@ -310,7 +315,7 @@ def execute(cell, d, env, entropy):
                 "cli_derives": ["-d", "Debug", "-d", "Clone"]}[cell.route]
         argv = [cli_bin()] + flag + sa + [gpath]
     elif cell.route == "compile_dir":
-        argv = [sim_bin("driver"), "compile", "--dir", os.path.join(d, "src")] + sa
+        argv = [sim_bin("driver"), "compile", "--dir", gpath if cell.dest_setup == "dir_is_grammar_file" else os.path.join(d, "src")] + sa
     else:
         argv = [sim_bin("driver"), "compile", "--file", gpath, "--dest", dest] + sa
         if cell.route == "compile_exit":
@@ -458,6 +463,11 @@ def build_cells(seed, tier, pool):
     cells.append(Cell("nested_grammar_dangling_symlink", "compile_dir", "fail", "io_read", setup="nested_dangling"))
     cells.append(Cell("nested_directory_unreadable", "compile_dir", "fail", "io_read", setup="nested_unreadable_dir", faults="open:/src/locked:0:e13"))
     cells.append(Cell("top_directory_unreadable", "compile_dir", "fail", "io_read", VALID, faults="open:/src:1:e13"))
+    # Compile::directory pointed at a grammar file instead of a directory (the walk then has exactly one entry)
+    cells.append(Cell("directory_is_a_grammar_file_valid", "compile_dir", "ok", "control", VALID, dest_setup="dir_is_grammar_file"))
+    cells.append(Cell("directory_is_a_grammar_file_syntax_error", "compile_dir", "fail", "io_read", b"Zz1 = ('a' ;\n", dest_setup="dir_is_grammar_file"))
+    cells.append(Cell("directory_is_a_grammar_file_restriction", "compile_dir", "fail", "io_read", b"@export\n@string\nZz1 = 'a';\n", dest_setup="dir_is_grammar_file"))
+    cells.append(Cell("directory_is_a_grammar_file_unreadable", "compile_dir", "fail", "io_read", VALID, dest_setup="dir_is_grammar_file", faults="open:{G}:1:e5"))
     # I/O faults on the destination
     for r in COMPILE_ROUTES:
         cells.append(Cell("dest_is_directory", r, "fail", "io_write", VALID, dest_setup="dest_is_dir"))
@@ -663,6 +673,7 @@ def run(tier, seed, replay_path=None):
     known = {(f["fault"], f["route"]): f for f in load_known_findings().get("findings", []) if f.get("property") == "C15"}
     known_hit = {}
     viol = []
+    vacuous = []
     fired_kinds = {}
     fired_cells = set()
     by_kind = {}
@@ -686,7 +697,9 @@ def run(tier, seed, replay_path=None):
             if not info.get("lib_error", "").startswith(stage):
                 raise HarnessError("cell %s is vacuous: expected a %s, library said: %s" % (cell.fault, stage, info.get("lib_error")))
         if shim_fault and not info["fired"] and cell.expect in ("fail",):
-            raise HarnessError("fault of cell %s/%s never fired (shim log empty): %r" % (cell.fault, cell.route, info))
+            # decided after the loop: when other cells report violations the run is a violation report, not a harness error
+            vacuous.append("fault of cell %s/%s never fired (shim log empty): %r" % (cell.fault, cell.route, info))
+            problem = None  # no failure was injected, so there is none to surface
         if problem:
             base = cell.fault.replace("+host", "")
             if (base, cell.route) in known:
@@ -696,6 +709,8 @@ def run(tier, seed, replay_path=None):
         if len(samples) < 6 and cell.kind in ("io_read", "io_write", "restriction", "rationale", "syntax", "damage") and (len(samples) == 0 or samples[-1]["kind"] != cell.kind):
             samples.append({"fault": cell.fault, "route": cell.route, "kind": cell.kind, "expect": cell.expect, "shim_faults": cell.faults,
                             "grammar": (cell.grammar or b"").decode("utf-8", "backslashreplace")[:200], "verdict": v, "status": info["status"], "fired": info["fired"][:3]})
+    if vacuous and not viol:
+        raise HarnessError(vacuous[0])
     for (f, r), problem in sorted(known_hit.items()):
         log("KNOWN-FINDING: property=C15 fault=%s route=%s: %s" % (f, r, problem))
     nviol = 0
